@@ -649,7 +649,8 @@ func (e *Exec) checkFrameAgainst(mods []ast.Expr, entry *State, finals []*State,
 					excl = append(excl, fmt.Sprintf("(not (= %s %s))", o, x))
 				}
 			}
-			guard := fmt.Sprintf("(and (select %s %s) %s)", al.S, o, strings.Join(append(excl, "true"), " "))
+			// (nil, reference 0, is not an object: what the model stores at index 0 is irrelevant)
+			guard := fmt.Sprintf("(and (> %s 0) (select %s %s) %s)", o, al.S, o, strings.Join(append(excl, "true"), " "))
 			phi := fmt.Sprintf("(=> %s (= (select %s %s) (select %s %s)))", guard, v.S, o, ev.S, o)
 			e.assert(r.st, name, "frame", phi, "objects other than those in the modifies clause keep their "+shortKey(k), where, nil)
 		}
